@@ -1,6 +1,8 @@
 import OrsoVerif.Model.RowCodec
 import OrsoVerif.Lemmas.RowBytes
 import OrsoVerif.Lemmas.MsgPackRoundtrip
+import OrsoVerif.Lemmas.RowStream
+import OrsoVerif.Lemmas.MsgPackSound
 /-!
 # C01 — Row byte format is lossless and self-delimiting
 
@@ -10,7 +12,7 @@ every value the encoder accepts, at every nesting depth.  All of them are statem
 definitions built from the constants extracted from the working tree (`Gen.Row.*`).
 -/
 namespace C01
-open RowBytes MsgPack RowCodec
+open RowBytes MsgPack RowCodec RowStream
 
 variable {α : Type}
 
@@ -37,13 +39,12 @@ theorem encode_total (ts : Nat) (payload : Bytes) :
     refine ⟨header payload.length ts ++ payload, ?_⟩
     simp only [Gen.Row.maxRecord] at hl
     rw [pow_consts.2.2] at ht
-    have a : ¬ payload.length > 16777216 := by omega
-    have b : ¬ (payload.length ≥ 4294967296 ∨ ts ≥ 18446744073709551616) := by omega
-    simp only [encodeFrame, Gen.Row.maxRecord, Gen.Row.lenWidth, Gen.Row.tsWidth, pow_consts.1,
-      pow_consts.2.1, a, b, if_false]
+    unfold encodeFrame
+    rw [frameDecision_eq, frameBytes_eq, if_neg (by omega), if_neg (by omega)]
   · intro hl
-    simp only [encodeFrame]
-    rw [if_pos hl]
+    simp only [Gen.Row.maxRecord] at hl
+    unfold encodeFrame
+    rw [frameDecision_eq, if_pos (by omega)]
 
 /-- **Every strict prefix is rejected with a data error** (a write torn at any byte `k`), for every
 record size and every payload codec; nothing is handed to the codec. -/
@@ -128,6 +129,30 @@ theorem length_altered_rejected (unpack : Bytes → Option α) (ts : Nat) (paylo
     have : payload.length + 0 + 1 + 1 + 1 + 1 + 1 + 1 + 1 + 1 - 8 = payload.length := by omega
     first | (rw [this]; exact hw) | (simp only [Nat.add_sub_cancel]; exact hw) | (simpa using hw))]
 
+/-- The 32 single-bit changes of the four length bytes (bits 0..7 of bytes 2..5) are rejected. -/
+theorem length_bitflip_rejected (unpack : Bytes → Option α) (ts : Nat) (payload r : Bytes)
+    (h : encodeFrame ts payload = .ok r) (i j : Nat) (hi : 2 ≤ i ∧ i < 6) (hj : j < 8) :
+    decodeWith unpack (flipBit r i j) = .error .badLength := by
+  have hr := (encodeFrame_ok h).2
+  have key := length_altered_rejected unpack ts payload r h
+  rw [hr, header_eq] at key ⊢
+  simp only [List.cons_append, List.nil_append, List.take_succ_cons, List.take_zero, List.drop_succ_cons,
+    List.drop_zero] at key
+  have hi' : i = 2 ∨ i = 3 ∨ i = 4 ∨ i = 5 := by omega
+  unfold flipBit
+  rcases hi' with rfl | rfl | rfl | rfl
+  · simp only [List.cons_append, List.nil_append, List.getD_cons_succ, List.getD_cons_zero, List.set_cons_succ, List.set_cons_zero]
+    apply key
+    intro hc; injection hc with h0 _; exact xor_bit_ne _ j hj h0
+  · simp only [List.cons_append, List.nil_append, List.getD_cons_succ, List.getD_cons_zero, List.set_cons_succ, List.set_cons_zero]
+    apply key
+    intro hc; injection hc with _ hc; injection hc with h0 _; exact xor_bit_ne _ j hj h0
+  · simp only [List.cons_append, List.nil_append, List.getD_cons_succ, List.getD_cons_zero, List.set_cons_succ, List.set_cons_zero]
+    apply key
+    intro hc; injection hc with _ hc; injection hc with _ hc; injection hc with h0 _; exact xor_bit_ne _ j hj h0
+  · simp only [List.cons_append, List.nil_append, List.getD_cons_succ, List.getD_cons_zero, List.set_cons_succ, List.set_cons_zero]
+    apply key
+    intro hc; injection hc with _ hc; injection hc with _ hc; injection hc with _ hc; injection hc with h0 _; exact xor_bit_ne _ j hj h0
 /-! ## MessagePack payload -/
 
 /-- **The payload codec is lossless** on every value `packb` accepts (nulls, booleans, integers in
@@ -137,6 +162,24 @@ theorem unpack_pack (v : PyVal) (fuel : Nat) (rest : Bytes)
     (hp : packable v = true) (hd : cdepth v < fuel) :
     unpack fuel (pack v ++ rest) = some (v, rest) :=
   unpack_pack' v fuel rest hp hd
+
+/-- **The decoder's range is the encoder's domain, for arbitrary bytes**: whatever the payload
+codec reads from any buffer is a value `packb` accepts (integers in `[-2^63, 2^64)`, sizes below
+`2^32`, nesting at most the fuel) — no family of MessagePack (float32, non-minimal integer/str/bin/
+array/map headers) leads outside it, the ext families and `0xc1` are refused — and it was read from
+a non-empty prefix: the unread rest is a proper suffix of the buffer. -/
+theorem unpack_in_domain (fuel : Nat) (bs : Bytes) (v : PyVal) (rest : Bytes)
+    (h : unpack fuel bs = some (v, rest)) :
+    packable v = true ∧ cdepth v ≤ fuel ∧ rest <:+ bs ∧ rest.length < bs.length :=
+  unpack_sound fuel bs v rest h
+
+/-- **Decoding normalises**: a value read from any bytes, packed again (smallest encodings) and
+read again is the same value: `unpack ∘ pack ∘ unpack = unpack`. -/
+theorem unpack_canonical (fuel : Nat) (bs : Bytes) (v : PyVal) (rest rest' : Bytes)
+    (h : unpack fuel bs = some (v, rest)) :
+    unpack (fuel + 1) (pack v ++ rest') = some (v, rest') := by
+  obtain ⟨hp, hd, _⟩ := unpack_sound fuel bs v rest h
+  exact unpack_pack v (fuel + 1) rest' hp (by omega)
 
 /-! ## Rows -/
 
@@ -177,11 +220,8 @@ theorem row_roundtrip (ts : Nat) (row : List PyVal) (r : Bytes)
           have hv : post v = some (.val v) := by
             have := hr v (by simp)
             unfold post
-            split
-            · rename_i s x
-              simp only [isReserved] at this
-              rw [this]; rfl
-            · rfl
+            rw [this]
+            rfl
           have := ih (fun w hw => hr w (by simp [hw]))
           simp [List.mapM_cons, hv, this]
       unfold unpackRow
@@ -207,6 +247,207 @@ theorem row_encode_total (ts : Nat) (row : List PyVal)
   rw [if_pos (by simp [hp, hd])]
   exact (encode_total ts _).1 hl ht
 
+/-- **Every accepted buffer is equivalent to an emitted record**: if the decoder turns an arbitrary
+buffer into a row, the payload is a MessagePack array `row` of the encoder's domain, and *whatever*
+record the encoder emits for `row` decodes to the very same items (datetime rewrites included):
+`decode ∘ encode ∘ decode = decode`. Nothing the decoder accepts lies outside what the encoder can
+express. -/
+theorem decoded_reencodes (data : Bytes) (items : List Item) (h : decodeRow data = .ok items) :
+    ∃ p row, checkFrame data = .ok p ∧ unpackb p = some (.list row) ∧ row.mapM post = some items ∧
+      packable (.list row) = true ∧ cdepth (.list row) ≤ unpackFuel ∧
+      ∀ ts r, encodeRow ts row = .ok r → decodeRow r = .ok items := by
+  unfold decodeRow decodeWith at h
+  cases hc : checkFrame data with
+  | error e => rw [hc] at h; cases h
+  | ok p =>
+    rw [hc] at h
+    simp only [] at h
+    cases hu : unpackRow p with
+    | none => rw [hu] at h; cases h
+    | some its =>
+      rw [hu] at h
+      injection h with h
+      subst h
+      unfold unpackRow at hu
+      cases hb : unpackb p with
+      | none => rw [hb] at hu; cases hu
+      | some v =>
+        rw [hb] at hu
+        match v, hb, hu with
+        | .list row, hb, hu =>
+          simp only [] at hu
+          have hb' := hb
+          unfold unpackb at hb'
+          cases hk : unpack unpackFuel p with
+          | none => rw [hk] at hb'; cases hb'
+          | some q =>
+            obtain ⟨v', rest⟩ := q
+            rw [hk] at hb'
+            injection hb' with hb'
+            subst hb'
+            obtain ⟨hp, hd, _⟩ := unpack_sound unpackFuel p _ rest hk
+            refine ⟨p, row, rfl, hb, hu, hp, hd, ?_⟩
+            intro ts r he
+            unfold encodeRow encodeWith at he
+            cases hpk : packRow row with
+            | none => rw [hpk] at he; cases he
+            | some pl =>
+              rw [hpk] at he
+              simp only [] at he
+              unfold packRow packb at hpk
+              split at hpk
+              · rename_i hcnd
+                injection hpk with hpk
+                subst hpk
+                simp only [Bool.and_eq_true] at hcnd
+                have hc2 : cdepth (.list row) ≤ 255 := of_decide_eq_true hcnd.2
+                unfold decodeRow
+                rw [decodeWith_ok _ (check_encode ts _ r he)]
+                have hu2 : unpackb (pack (.list row)) = some (.list row) := by
+                  unfold unpackb
+                  have := unpack_pack (.list row) unpackFuel [] hcnd.1 (by simp only [unpackFuel]; omega)
+                  rw [List.append_nil] at this
+                  rw [this]
+                unfold unpackRow
+                rw [hu2]
+                simp only []
+                rw [hu]
+              · cases hpk
+
+/-! ## Arbitrary buffers: the decoder's outcome is one of four, each with its exact cause -/
+
+/-- **Every buffer either decodes to a row or is rejected, and nothing else can happen**: for an
+arbitrary byte string the decoder model gives exactly one of
+* "Data malformed" — precisely when the buffer is shorter than the header or its version nibble is wrong,
+* "incorrect length" — precisely when those pass and the length field differs from the bytes that follow,
+* a payload error — precisely when the guards pass and the payload is not a MessagePack array whose
+  reserved items carry a number,
+* a row — precisely the one the payload codec reads from the bytes after the header.
+(`unknownOp`, the outcome for a comparison operator the model does not know, cannot occur with the
+operators extracted from the source.) -/
+theorem decode_total (data : Bytes) :
+    (decodeRow data = .error .malformed ∧
+      (data.length < Gen.Row.decHeaderSize ∨ (byteAt data 0 &&& Gen.Row.nibbleMask) ≠ Gen.Row.nibbleValue)) ∨
+    (decodeRow data = .error .badLength ∧ Gen.Row.decHeaderSize ≤ data.length ∧
+      (byteAt data 0 &&& Gen.Row.nibbleMask) = Gen.Row.nibbleValue ∧
+      recordSize data ≠ (data.length : Int) - Gen.Row.decHeaderSize) ∨
+    (decodeRow data = .error .payloadError ∧ checkFrame data = .ok (data.drop Gen.Row.payloadStart) ∧
+      unpackRow (data.drop Gen.Row.payloadStart) = none) ∨
+    (∃ items, decodeRow data = .ok items ∧ checkFrame data = .ok (data.drop Gen.Row.payloadStart) ∧
+      unpackRow (data.drop Gen.Row.payloadStart) = some items) := by
+  simp only [Gen.Row.decHeaderSize, Gen.Row.nibbleMask, Gen.Row.nibbleValue, Gen.Row.payloadStart]
+  have hcf := checkFrame_eq data
+  by_cases h1 : (data.length : Int) < 14
+  · rw [if_pos h1] at hcf
+    exact .inl ⟨decodeWith_error _ hcf, .inl (by omega)⟩
+  · rw [if_neg h1] at hcf
+    by_cases h2 : (byteAt data 0 &&& 240) ≠ 16
+    · rw [if_pos h2] at hcf
+      exact .inl ⟨decodeWith_error _ hcf, .inr h2⟩
+    · rw [if_neg h2] at hcf
+      by_cases h3 : recordSize data ≠ (data.length : Int) - 14
+      · rw [if_pos h3] at hcf
+        exact .inr (.inl ⟨decodeWith_error _ hcf, by omega, by simpa using h2, by simpa using h3⟩)
+      · rw [if_neg h3] at hcf
+        have hd : decodeRow data = _ := decodeWith_ok unpackRow hcf
+        cases hu : unpackRow (data.drop 14) with
+        | none => rw [hu] at hd; exact .inr (.inr (.inl ⟨hd, hcf, rfl⟩))
+        | some items => rw [hu] at hd; exact .inr (.inr (.inr ⟨items, hd, hcf, rfl⟩))
+
+/-- **What the guards accept is exactly the emitted shape**: a buffer passes the three guards with
+payload `p` iff it is `b0, b1, len(p) as four big-endian bytes, eight more bytes, p` with the
+version nibble in `b0` and `len(p) < 2^31`. So an accepted buffer differs from the record the
+encoder emits for the same payload at most in the unguarded bits (low nibble of byte 0, byte 1,
+the clock) — the converse of `check_encode`. -/
+theorem accepted_iff (data p : Bytes) :
+    checkFrame data = .ok p ↔
+      ∃ b0 b1 ts8, (b0.toNat &&& Gen.Row.nibbleMask) = Gen.Row.nibbleValue ∧ ts8.length = 8 ∧
+        p.length < 2147483648 ∧ data = b0 :: b1 :: (be 4 p.length ++ ts8 ++ p) := by
+  simp only [Gen.Row.nibbleMask, Gen.Row.nibbleValue]
+  constructor
+  · intro h
+    have hlen : 14 ≤ data.length := by
+      by_cases hs : data.length < 14
+      · rw [checkFrame_short data hs] at h; cases h
+      · omega
+    obtain ⟨p0, p1, l0, l1, l2, l3, rest, rfl⟩ := exists_cons6 data (by omega)
+    have hr : 8 ≤ rest.length := by simp only [List.length_cons] at hlen; omega
+    rw [checkFrame_cons _ _ _ _ _ _ _ hr] at h
+    split at h
+    · cases h
+    · rename_i hn
+      split at h
+      · cases h
+      · rename_i hw
+        injection h with h
+        have hw' : wrap32 (len4 l0 l1 l2 l3) = ((rest.length - 8 : Nat) : Int) := by simpa using hw
+        have hlt : rest.length - 8 < 2147483648 := by
+          have := wrap32_lt l0 l1 l2 l3
+          omega
+        obtain ⟨e0, e1, e2, e3⟩ := wrap32_len4_eq hlt hw'
+        have hpl : p.length = rest.length - 8 := by rw [← h]; simp
+        refine ⟨p0, p1, rest.take 8, by simpa using hn, by simp; omega, by omega, ?_⟩
+        rw [be4, hpl, ← e0, ← e1, ← e2, ← e3, ← h]
+        simp
+  · rintro ⟨b0, b1, ts8, hn, hts, hp, rfl⟩
+    rw [be4]
+    simp only [List.cons_append, List.nil_append]
+    rw [checkFrame_cons _ _ _ _ _ _ _ (by simp [hts])]
+    rw [if_neg (by simpa using hn), len4_be p.length (by omega)]
+    have hw : wrap32 p.length = (p.length : Int) := by simp [wrap32]; omega
+    have hl : (ts8 ++ p).length - 8 = p.length := by simp [hts]
+    rw [hw, hl, if_neg (by simp)]
+    congr 1
+    rw [← hts, List.drop_left]
+
+/-! ## Records one after another (self-delimiting as a stream property) -/
+
+/-- **`split (r1 ++ r2 ++ …) = [r1, r2, …]`**: any number of emitted records written one after the
+other are cut back into exactly those records by their own length fields, whatever the payloads
+contain (a payload may itself look like a header). -/
+theorem split_concat (rs : List Bytes) (h : ∀ r ∈ rs, ∃ ts payload, encodeFrame ts payload = .ok r) :
+    split rs.flatten = .ok rs :=
+  splitFuel_flatten rs h _ (length_le_flatten rs (fun r hr => Emitted.ne_nil (h r hr)))
+
+/-- **A torn tail is detected in a stream too**: complete records followed by a strict non-empty
+prefix of another record (the write-ahead file after a crash) is a data error for the reader — the
+complete records are not silently returned as if the file ended cleanly, nor is a record invented. -/
+theorem split_torn_tail (rs : List Bytes) (h : ∀ r ∈ rs, ∃ ts payload, encodeFrame ts payload = .ok r)
+    (ts : Nat) (payload r : Bytes) (hr : encodeFrame ts payload = .ok r) (k : Nat) (hk0 : 0 < k)
+    (hk : k < r.length) :
+    ∃ e, split (rs.flatten ++ r.take k) = .error e ∧ e.isDataError = true := by
+  obtain ⟨e, he, hd⟩ := nextRecord_torn hr k hk
+  have hne : r.take k ≠ [] := by
+    intro hn
+    have : (r.take k).length = 0 := by rw [hn]; rfl
+    simp only [List.length_take] at this; omega
+  refine ⟨e, ?_, hd⟩
+  apply splitFuel_torn rs h _ hne e he
+  have h1 := length_le_flatten rs (fun r hr => Emitted.ne_nil (h r hr))
+  have h2 : 0 < (r.take k).length := List.length_pos_iff.mpr hne
+  simp only [List.length_append]; omega
+
+/-- **Round trip of a whole write-ahead buffer**: rows (without reserved items) serialised one after
+the other, each with its own clock, and concatenated, are read back as the same rows in the same
+order. -/
+theorem stream_roundtrip (xs : List (Nat × List PyVal × Bytes))
+    (h : ∀ x ∈ xs, encodeRow x.1 x.2.1 = .ok x.2.2 ∧ NoReserved x.2.1) :
+    decodeStream (xs.map (·.2.2)).flatten = .ok (xs.map fun x => x.2.1.map Item.val) := by
+  have hem : ∀ r ∈ xs.map (·.2.2), ∃ ts payload, encodeFrame ts payload = .ok r := by
+    intro r hr
+    obtain ⟨x, hx, rfl⟩ := List.mem_map.mp hr
+    have he := (h x hx).1
+    unfold encodeRow encodeWith at he
+    cases hp : packRow x.2.1 with
+    | none => rw [hp] at he; cases he
+    | some p => rw [hp] at he; exact ⟨x.1, p, he⟩
+  have hd : decodeAll (xs.map (·.2.2)) = .ok (xs.map fun x => x.2.1.map Item.val) :=
+    decodeAllWith_map decodeRow xs (·.2.2) (fun x => x.2.1.map Item.val)
+      (fun x hx => row_roundtrip x.1 x.2.1 x.2.2 (h x hx).1 (h x hx).2)
+  unfold decodeStream
+  rw [split_concat _ hem]
+  exact hd
+
 /-! Non-vacuity: a concrete row over several value kinds is emitted and decodes to itself; the
 reserved form does not (which is why it is excluded). -/
 set_option maxRecDepth 100000 in
@@ -225,5 +466,26 @@ example :
     (checkFrame [16, 0, 0, 0, 0, 2, 0, 0, 0, 0, 0, 0, 0, 7, 0x91, 1, 0]).toOption = none ∧
     (checkFrame [32, 0, 0, 0, 0, 2, 0, 0, 0, 0, 0, 0, 0, 7, 0x91, 1]).toOption = none ∧
     (checkFrame [16, 0, 0, 0, 0, 3, 0, 0, 0, 0, 0, 0, 0, 7, 0x91, 1]).toOption = none := by decide
+
+/-! Non-vacuity of the stream theorems: two concrete records, concatenated, cut apart, and a torn tail. -/
+example :
+    (split ([16, 0, 0, 0, 0, 2, 0, 0, 0, 0, 0, 0, 0, 7, 0x91, 1] ++ [16, 0, 0, 0, 0, 1, 0, 0, 0, 0, 0, 0, 0, 8, 0x90])).toOption
+      = some [[16, 0, 0, 0, 0, 2, 0, 0, 0, 0, 0, 0, 0, 7, 0x91, 1], [16, 0, 0, 0, 0, 1, 0, 0, 0, 0, 0, 0, 0, 8, 0x90]] ∧
+    (split ([16, 0, 0, 0, 0, 2, 0, 0, 0, 0, 0, 0, 0, 7, 0x91, 1] ++ [16, 0, 0, 0, 0, 1, 0, 0, 0, 0, 0, 0, 0, 8])).toOption = none ∧
+    (split []).toOption = some [] ∧
+    (decodeStream ([16, 0, 0, 0, 0, 2, 0, 0, 0, 0, 0, 0, 0, 7, 0x91, 1] ++ [16, 0, 0, 0, 0, 1, 0, 0, 0, 0, 0, 0, 0, 8, 0x90])).toOption
+      = some [[Item.val (.int 1)], []] := by decide
+
+/-- The reserved form the encoder's `serialize` writes is the one the decoder rewrites (same marker,
+same length): both sides are extracted from the source. -/
+example : Gen.Row.reservedMarkerEnc = Gen.Row.reservedMarker ∧ Gen.Row.reservedLenEnc = Gen.Row.reservedLen := by decide
+
+/-- The exact excluded form: a two-element list whose first element is the marker text — not a
+longer list, not the marker as bytes, not the form one level down. -/
+example : isReserved (.list [.str "__datetime__", .none]) = true ∧
+    isReserved (.list [.str "__datetime__", .int 1, .int 2]) = false ∧
+    isReserved (.list [.bytes [95], .int 1]) = false ∧
+    isReserved (.list [.list [.str "__datetime__", .int 1]]) = false ∧
+    isReserved (.dict [("__datetime__", .int 1)]) = false := by decide
 
 end C01
